@@ -56,7 +56,7 @@ StreamNames ==
     <<1, 67>>, <<9, 120>>, <<31>> }
 StreamNamesQ == { <<97>>, <<48, 48>>, <<14336>>, Packable(62), Packable(63), <<233>>, <<201, 97>>, <<47, 233>>, <<18496, 97>>, <<>>,
                   N_Summary, N_Signature, T, <<48>>, <<97, 98, 95>>, LongOdd, <<18433>>, Cjk(31), Cjk(32),
-                  <<97, 18496>>, <<1, 67>> }       \* the table marker is a marker in first position only; a control character is not U+0005
+                  <<97, 18496>>, <<1, 67>>, <<45>> \o Packable(60) }    \* "-" + 60 packable characters: 31 units when the run pairs up from its start       \* the table marker is a marker in first position only; a control character is not U+0005
 Eq(c, v) == Bin("eq", Col(c), Lit(v))
 
 E(op, args) == [op |-> op, args |-> args]
@@ -243,7 +243,7 @@ MCSpec == MCInit /\ [][MCNext]_vars
 ProbeNames == {<<97>>, <<48, 48>>, <<14336>>, T, <<233>>, Packable(62), <<95, 95>>, <<18431>>}
 PoolBound == /\ Len(pool) <= (IF Cfg = "catalog" THEN 90 ELSE IF Cfg \in {"keysc", "keyss"} THEN 60 ELSE 40)
              /\ Cardinality(DOMAIN ustreams \ {SIG}) <= 2
-             /\ (Cfg = "streamsfull" /\ Cardinality(DOMAIN ustreams \ {SIG}) = 2 => (DOMAIN ustreams \cap ProbeNames) # {})
+             /\ (Cfg \in {"streamsfull", "streams"} /\ Cardinality(DOMAIN ustreams \ {SIG}) = 2 => (DOMAIN ustreams \cap ProbeNames) # {})
 
 -----------------------------------------------------------------------------
 \* JSON shape of the abstract state (tables and streams as lists; the harness sorts by name)
